@@ -237,3 +237,22 @@ func TestFindingK1SetWithMetaViewStale(t *testing.T) {
 	require.NoError(t, err)
 	require.GreaterOrEqual(t, after, before+1000, "the collection's high-water mark must cover every stored CAS")
 }
+
+// F13 [C09,C14] backfill events always carry Expiry 0 (the backfill query never reads the exp column).
+func TestFindingF13BackfillExpiry(t *testing.T) {
+	_, c := findingBucket(t)
+	require.NoError(t, c.SetRaw("k", 2000000000, nil, []byte(`{"v":1}`)))
+	events := make(chan sgbucket.FeedEvent, 10)
+	args := sgbucket.FeedArguments{ID: "bf", Backfill: 0, Dump: true, DoneChan: make(chan struct{})}
+	require.NoError(t, c.StartDCPFeed(context.Background(), args, func(e sgbucket.FeedEvent) bool { events <- e; return true }, nil))
+	<-args.DoneChan
+	close(events)
+	found := false
+	for e := range events {
+		if e.Opcode == sgbucket.FeedOpMutation && string(e.Key) == "k" {
+			found = true
+			require.Equal(t, uint32(2000000000), e.Expiry, "a backfilled event describes the document exactly as a live event does")
+		}
+	}
+	require.True(t, found)
+}
